@@ -89,6 +89,10 @@ func c13r1(r *R) {
 				if c.Parent() != nil && (inl[fname(c.Parent())] || c.Parent() == f.entry) {
 					return true
 				}
+				// a helper of the package that itself reports (extracted "finish" functions)
+				if strings.Contains(fname(c), "martian.") && c.Name() != "traceWroteResponse" && len(calls(c, nameIs("(*martian.Proxy).traceWroteResponse"))) > 0 {
+					return true
+				}
 				return false
 			},
 			Relevant:    relevantC13,
